@@ -148,6 +148,22 @@ CLAIMED = {
              'keep the attached models as objects.',
         note=STATIC_NOTE + 'Array clause bounded by the stated length; copy.deepcopy not modelled.',
         ref='DESIGN.md section 4 C13'),
+    'C14': dict(
+        technique='abstract interpretation of printer and parser over abstract strings (symbolic names, concrete '
+                  'coefficients printed as Python prints them); composition parse(print(x)) compared with x; '
+                  'interpretation of the balance check with symbolic compositions; regex shape check',
+        text='Decides for 5 delimiter pairs x 5 stoichiometry patterns (1, integers, decimals, 1-4 species per side, '
+             '0-2 transition-state species) x stoich_space x coefficient format that Reaction.from_string(to_string()) '
+             'returns the same species objects, coefficients (to the printed precision) and transition state for all '
+             'species names at once; that repeated species are merged by summation, omitted/integer/decimal '
+             'coefficients and surrounding blanks are parsed, unknown species raise KeyError; that '
+             'check_element_balance accepts reactions balanced by construction and refuses ones unbalanced in the '
+             'products or in the transition state (symbolic stoichiometry and compositions); that parse_formula sums '
+             'repeated symbols, reads missing counts as one and handles two-letter symbols.',
+        note=STATIC_NOTE + 'Names are assumed to contain no delimiter/blank and not to start with a digit (as the '
+             'property restricts them); the two regular expressions must have the modelled shape (else exit 2); '
+             'Counter\'s dropping of non-positive totals is not modelled.',
+        ref='DESIGN.md section 4 C14'),
     'C17': dict(
         technique='abstract interpretation of the real constructor/insert/pop/_set_intercepts/get_UoRT under an '
                   'ordering oracle, exhaustive enumeration of operation sequences up to a bound, comparison with a '
